@@ -30,9 +30,13 @@ def c01(run):
         else:
             t, kind = texts.nested(rng, rng.choice([5, 50, 150, 300])), 'nested'
         cases.append((t, kind))
+    for _ in range(run.n(40, 1500)):
+        for t in texts.token_prefixes(rng, texts.valid_program(rng, depth=1, max_depth=2)[1]):
+            cases.append((t, 'prefix'))
     run.rule = ('texts: token soup over the full vocabulary (keywords in any case, identifiers with digits/underscores/'
                 'non-ASCII, numbers incl. malformed, strings/comments open and closed across lines, apostrophe forms, '
-                'punctuation, CR/LF, stray else), valid programs, token-level mutations and truncations of valid programs, '
+                'punctuation, CR/LF, stray else), valid programs, token-level mutations and truncations of valid programs, every '
+                'token-boundary prefix of valid programs (no final newline; with trailing blank/comment), '
                 'nests up to depth 300; non-trivial = the text is rejected (error path) or contains a string, comment, '
                 'apostrophe or non-ASCII character; distinct by text')
     reqs = ['parse ' + hx(t) for t, _ in cases]
@@ -143,6 +147,14 @@ def c12_oracle(src, toks):
 
 
 def c12_text(rng):
+    t = c12_text_(rng)
+    if rng.random() < 0.04:
+        # something odd at the very start of the source (byte order mark, zero-width characters, …)
+        t = rng.choice(texts.ODD) + t
+    return t
+
+
+def c12_text_(rng):
     r = rng.random()
     if r < 0.35:
         return texts.soup(rng)
@@ -239,6 +251,14 @@ FAULTS = [
     ('error-token', ['5x', '_', '_x', 'foo1 is 5', 'a_b', '"unterminated', '1.2.3', '٣', 'x1']),
     ('not-a-statement', ['and', 'plus 1', 'is 5', 'into x', '5', '"str"', 'true', 'up', 'taking 1', 'than', ', say 1', '& x',
                          'at 5', 'with 1']),
+    # faults inside or right after a poetic literal / a literal right-hand side, at the END of the line
+    ('poetic', ['x is a lady-', 'x is a lovestruck lady- .', 'x is -', 'x is - big', 'rock x like',
+                'rock x like -', 'rock x like a-', "x's", 'x is', 'x are', "it's", 'x says', 'x says"s"', 'x is 5 5',
+                'x is true false', 'x is "a" b', 'x is 5 big', 'x is null 5', "x's a lady-", 'x is a big-- deal']),
+    ('list-tail', ['say 1 plus 2,', 'say x taking 1,', 'say x taking 1 and', 'rock x with 1,', 'say 1, 2', 'say 1 &',
+                   "say x taking 1 'n'"]),
+    ('operand-kind', ['cut 5', 'join "a"', 'cast 5 with 2', 'your "s"', 'a 5', 'say 5 is as', 'say 5 is bigger than',
+                      'put 5 into x at', 'let x at be 5', 'say x at 1 at', 'build 5 up', 'knock "s" down', 'listen to 5']),
 ]
 
 
@@ -287,8 +307,8 @@ def c13(run):
     rng = run.rng
     n = run.n(2500, 100000)
     run.rule = ('valid program (C02 generator, multi-line comments and blank-line runs) x statement boundary at any nesting '
-                'depth x fault from a catalogue of %d context-independent faults in 5 classes; non-trivial = the fault is '
-                'not on line 1 and not in the first statement; distinct by text' % sum(len(l) for _, l in FAULTS))
+                'depth x fault from a catalogue of %d context-independent faults in %d classes; non-trivial = the fault is '
+                'not on line 1 and not in the first statement; distinct by text' % (sum(len(l) for _, l in FAULTS), len(FAULTS)))
     cases = []
     while len(cases) < n:
         g = rock.Gen(rng, max_depth=rng.randint(1, 3))
@@ -389,7 +409,14 @@ def gen_poetic_line(rng):
         elif rr < 0.27 and w.lower() not in rock.KEYWORDS and len(w) > 2:
             k = rng.randint(1, len(w) - 1)
             w = w[:k] + "'" + w[k:]                   # apostrophe inside a word: not counted
-        text += (' ' if text and not text.endswith(' ') else '') + w
+        # words are separated by blanks of any kind (ASCII, Unicode spaces) or ignorable punctuation
+        sep = ' '
+        rs = rng.random()
+        if rs < 0.12:
+            sep = rng.choice(['\u00a0', '\u3000', '\u2009', '\u0085', '\t', '  ', ' \u00a0', '\u2003 ', '\u1680', '\u202f', '\u205f'])
+        elif rs < 0.18:
+            sep = rng.choice(['?', '!', ';', ':', '? ', ' !', '?!'])
+        text += ((sep if not text.endswith(' ') or sep.strip(' ') else '') if text else '') + w
         digits.append(length % 10)
         first = False
     return text, digits, dotpos
@@ -400,7 +427,7 @@ def c11(run):
     n = run.n(4000, 150000)
     run.rule = ('poetic number literals: 1-10 words of lengths 1..30 (multiples of 10 included), apostrophes inside words, '
                 "'s/'re suffixes, hyphenated parts, keywords used as words, periods and commas in any position, non-ASCII "
-                'letters; poetic strings: line texts with balanced quotes/parens, leading/trailing/multiple spaces, non-ASCII; '
+                'letters, words separated by ASCII blanks, Unicode spaces or ignorable punctuation; poetic strings: line texts with balanced quotes/parens, leading/trailing/multiple spaces, non-ASCII; '
                 'non-trivial = literal has a period, a suffix/hyphen/apostrophe, a keyword or a zero digit; distinct by text')
     cases = []
     for i in range(n):
